@@ -356,6 +356,8 @@ def gen_reducer_value(rng, name):
         mode = rng.choice(["int", "int", "str", "mixed"])
         if mode == "mixed":
             return gen_atom(rng)
+        if mode == "int" and rng.random() < 0.2:
+            return 0        # the falsy extremum: a reducer that filters on truthiness instead of `is not None` drops it
         return gen_atom(rng, rng.choice([mode, mode, mode, "none"]))
     if name in ("collect", "append", "extend"):
         return gen_value(rng, allow_dict=False)
@@ -458,6 +460,18 @@ def reducer_outcome(fn, vals) -> str:
         return "unsupported"
 
 
+def arith_oracle(name: str, pv: list, got: str) -> str | None:
+    """'fan-in reducers combine the values of ALL upstream branches': independent arithmetic oracle for sum / max / min over
+    integer branch values (None = the branch did not publish the key)"""
+    ints = [v for v in pv if isinstance(v, int) and not isinstance(v, bool)]
+    if name not in ("sum", "max", "min") or not ints or not all(v is None or (isinstance(v, int) and not isinstance(v, bool)) for v in pv):
+        return None
+    want = {"sum": sum, "max": max, "min": min}[name](ints)
+    if got != enc_value(want):
+        return f"reducer {name} over branch values {pv!r} gives {got} - not the {name} of all published values ({enc_value(want)})"
+    return None
+
+
 def reducers_suite(ctx):
     from stabilize.reducers import _BUILTIN_REDUCERS, apply_output_reducers, get_reducer
 
@@ -484,6 +498,11 @@ def reducers_suite(ctx):
         ctx.tag(f"reducer={name}")
         distinct = set(results.values())
         rep = {"kind": "reducer", "name": name, "values": vals}
+        for perm, got in results.items():
+            msg = arith_oracle(name, [vals[i] for i in perm], got)
+            if msg:
+                ctx.violation(msg, f"reducer:{name}:not-all-branches", {"kind": "reducer", "name": name, "values": [vals[i] for i in perm]})
+                break
         if name in ("sum", "max", "min") and len(distinct) > 1:
             ctx.violation(f"reducer {name} depends on the order of the branches: {vals!r} -> {sorted(distinct)}",
                           f"reducer:{name}:order-dependent", rep)
@@ -765,6 +784,9 @@ def dispatch(ctx, body, lines, inputs, impl, env):
             lines.append(f"merge reduce {body['name']} " + "|".join(enc_value(v) for v in pv))
             inputs.append(body)
             impl.append(reducer_outcome(get_reducer(body["name"]), pv))
+            msg = arith_oracle(body["name"], pv, impl[-1])
+            if msg:
+                ctx.violation(msg, f"reducer:{body['name']}:not-all-branches", body)
     else:
         raise core.Infra(f"unknown C16 replay kind {kind!r}")
 
@@ -832,6 +854,9 @@ def search(ctx) -> None:
                 return
     finally:
         env.close()
+    reducers_suite(ctx)
+    if ctx.monitor_hits:
+        return
     sink = ([], [], [])
     for _ in range(ctx.n(30, 100)):
         loop_case(ctx, gen_loop_case(ctx.rng), *sink)
